@@ -201,13 +201,16 @@ class Src:
         return "".join(str(self._draw(9)) for _ in range(n))
 
 
-def shrink(choices, interesting, budget=400):
-    """Greedy choice-sequence reduction: delete chunks, zero chunks, lower single values."""
+def shrink(choices, interesting, budget=400, seconds=None):
+    """Greedy choice-sequence reduction: delete chunks, zero chunks, lower single values. `seconds`: wall-clock limit of the whole
+    reduction (a failure that is a time-out costs a full request budget per attempt); the result is then only less reduced."""
     best = list(choices)
     calls = [0]
+    deadline = None if seconds is None else time.monotonic() + seconds
 
     def test(c):
-        if calls[0] >= budget:
+        if calls[0] >= budget or (deadline is not None and time.monotonic() > deadline):
+            calls[0] = budget
             return False
         calls[0] += 1
         try:
@@ -509,7 +512,7 @@ class Ctx:
             f, _ = self.run_case_quiet(part, c)
             return f is not None and f.sig == fail.sig
         try:
-            best = shrink(choices, interesting, budget=self.scale(300, 1500))
+            best = shrink(choices, interesting, budget=self.scale(300, 1500), seconds=self.scale(90, 600))
             src = Src(prefix=best)
             return part.gen(src), best
         except Exception:
